@@ -66,6 +66,14 @@ fn pick_class(rng: &mut Rng, w: &[(BidiClass, usize)]) -> BidiClass {
 pub fn gen_text(rng: &mut Rng, mode: &str) -> Vec<u32> {
     match mode {
         "empty" => vec![],
+        "removed" => {
+            // text made only of characters that X9 removes (sometimes split into paragraphs): every level run
+            // consists of removed characters, the "first / last character that is not removed" searches find nothing
+            let n = rng.range(1, 10);
+            let mut t: Vec<u32> = (0..n).map(|_| { let c = *rng.pick(&[BN, BN, LRE, RLE, LRO, RLO, PDF, PDF]); pick_char(rng, c) }).collect();
+            if rng.chance(1, 4) { let k = rng.below(t.len() + 1); t.insert(k, pick_char(rng, B)); }
+            t
+        }
         "short" => {
             let w = weights(rng, &[], true);
             let n = rng.range(1, 14);
@@ -210,6 +218,32 @@ pub fn gen_text(rng: &mut Rng, mode: &str) -> Vec<u32> {
             for _ in 0..rng.range(0, 3) { let c = *rng.pick(&[L, R, AL, WS, B]); t.push(pick_char(rng, c)); }
             t
         }
+        "siblings" => {
+            // one isolating run sequence made of very many level runs: N sibling isolates at the same level
+            // (N around 256, where an index narrowed to 8 bits wraps), then a bracket pair / neutrals whose
+            // resolution looks back across all the runs
+            let mut t = vec![];
+            let lead = *rng.pick(&[L, R, AL, EN]);
+            t.push(pick_char(rng, lead));
+            let n = match rng.below(4) { 0 => rng.range(2, 12), 1 => rng.range(250, 262), _ => rng.range(254, 300) };
+            let init = *rng.pick(&[LRI_C, RLI_C, FSI_C]);
+            let inner = *rng.pick(&[L, R]);
+            let between = *rng.pick(&[L, R, EN, ON]);
+            for i in 0..n {
+                t.push(if rng.chance(1, 30) { *rng.pick(&[LRI_C, RLI_C, FSI_C]) } else { init });
+                t.push(pick_char(rng, inner));
+                t.push(PDI_C);
+                if i + 1 < n || rng.chance(1, 2) { t.push(pick_char(rng, between)); }
+            }
+            let k = pick_bracket(rng);
+            let s1 = *rng.pick(&[L, R, AL]);
+            t.push(pick_char(rng, s1));
+            t.push(OPEN_BRACKETS[k]);
+            for _ in 0..rng.range(1, 2) { let c = *rng.pick(&[L, R, AL, EN]); t.push(pick_char(rng, c)); }
+            t.push(CLOSE_BRACKETS[k]);
+            for _ in 0..rng.range(0, 2) { let c = *rng.pick(&[L, R, NSM, ON]); t.push(pick_char(rng, c)); }
+            t
+        }
         "brk" => {
             let mut t = vec![];
             // around the 63-entry limit of BD16 the exact count matters
@@ -282,10 +316,18 @@ pub fn gen_text(rng: &mut Rng, mode: &str) -> Vec<u32> {
             // overridden type but is still "originally NSM"
             let wrap = rng.chance(1, 5);
             if wrap { t.push(*rng.pick(&[LRE_C, RLE_C])); let c = *rng.pick(&strongs); t.push(pick_char(rng, c)); }
+            // sometimes the pairs are the content of an isolate, and the content starts with removed characters
+            // standing directly before the opening bracket (they are stored in the initiator's level run, i.e.
+            // outside the content's isolating run sequence)
+            let iso = !wrap && rng.chance(1, 5);
+            if iso {
+                t.push(*rng.pick(&[LRI_C, RLI_C, FSI_C]));
+                for _ in 0..rng.range(1, 2) { t.push(*rng.pick(&[0xADu32, 0x200B, LRE_C, RLE_C, PDF_C, 0x2060])); }
+            }
             for pi in 0..npairs {
-                let k = rng.below(OPEN_BRACKETS.len());
-                let k2 = if rng.chance(1, 8) { rng.below(OPEN_BRACKETS.len()) } else { k };
-                if rng.chance(1, 4) { t.push(*rng.pick(pool(BN))); }
+                let k = pick_bracket(rng);
+                let k2 = if rng.chance(1, 8) { pick_bracket(rng) } else { k };
+                if !(iso && pi == 0) && rng.chance(1, 4) { t.push(*rng.pick(pool(BN))); }
                 t.push(OPEN_BRACKETS[k]);
                 for _ in 0..rng.range(0, 2) { if rng.chance(1, 3) { let c = *rng.pick(&[NSM, BN]); t.push(*rng.pick(pool(c))); } }
                 for _ in 0..rng.range(0, 3) {
@@ -307,6 +349,10 @@ pub fn gen_text(rng: &mut Rng, mode: &str) -> Vec<u32> {
                     t.push(*rng.pick(pool(c)));
                 }
             }
+            if iso {
+                t.push(PDI_C);
+                for _ in 0..rng.range(0, 2) { let c = *rng.pick(&[EN, AN, ON, WS, L, R]); t.push(*rng.pick(pool(c))); }
+            }
             t
         }
         "weak" => {
@@ -316,6 +362,11 @@ pub fn gen_text(rng: &mut Rng, mode: &str) -> Vec<u32> {
         }
         _ => gen_text(rng, "short"),
     }
+}
+
+/// index of a bracket pair: half of the time one of the seven common ones, otherwise any of the 64
+pub fn pick_bracket(rng: &mut Rng) -> usize {
+    if rng.chance(1, 2) { rng.below(7) } else { rng.below(OPEN_BRACKETS.len()) }
 }
 
 pub fn pick_mode<'a>(rng: &mut Rng, modes: &[(&'a str, usize)]) -> &'a str {
@@ -573,8 +624,8 @@ fn line_case(rng: &mut Rng, modes: &[(&'static str, usize)]) -> (String, Input) 
     (mode, inp)
 }
 
-const MODES_ALL: [(&str, usize); 12] =
-    [("short", 12), ("long", 4), ("iso", 6), ("deep", 2), ("brk", 4), ("sep", 4), ("words", 6), ("weak", 6), ("para", 4), ("max", 2), ("n0", 8), ("deepiso", 1)];
+const MODES_ALL: [(&str, usize); 14] =
+    [("removed", 1), ("short", 12), ("long", 4), ("iso", 6), ("deep", 2), ("brk", 4), ("sep", 4), ("words", 6), ("weak", 6), ("para", 4), ("max", 2), ("n0", 8), ("deepiso", 1), ("siblings", 1)];
 
 /// Exhaustive small scope (support for the thorough tier, never presented as proof): the `n`-th class
 /// sequence over `alphabet`, shortest first, crossed with the three base directions; representatives rotate.
@@ -648,7 +699,24 @@ pub fn gen_case(prop: &str, rng: &mut Rng, n: usize, thorough: bool) -> (String,
         "XRED" => ("exh-reduced".into(), exh_case(&EXH_REDUCED, n, false)),
         "XCTRL" => ("exh-ctrl".into(), exh_case(&EXH_CTRL, n, false)),
         "XLINE" => ("exh-line".into(), exh_case(&EXH_FULL, n, true)),
-        "C01" => bidi_case(rng, &MODES_ALL, true),
+        "C01" => {
+            if n < 4 * OPEN_BRACKETS.len() {
+                // every bracket pair of the reference once in each of four N0-sensitive templates (a pair that is
+                // not recognised falls through to N1/N2 and gets different levels)
+                let k = n / 4;
+                let (o, c) = (OPEN_BRACKETS[k], CLOSE_BRACKETS[k]);
+                let (t, dir): (Vec<u32>, Dir) = match n % 4 {
+                    0 => (vec![0x5D0, o, 0x5D1, 0x20, 0x61, c, 0x5D2], Dir::L0),
+                    1 => (vec![0x61, o, 0x62, 0x20, 0x5D0, c, 0x63], Dir::L1),
+                    2 => (vec![0x5D0, 0x20, o, 0x61, c, 0x20, 0x62], Dir::Auto),
+                    _ => (vec![0x61, 0x20, 0x5D0, o, 0x31, c, 0x300, 0x20, 0x62], Dir::L0),
+                };
+                let enc = if k % 2 == 0 { Enc::U8 } else { Enc::U16 };
+                let text = if enc == Enc::U16 { to_units(rng, &t, false) } else { t };
+                return ("brk-all".into(), Input::Bidi { enc, api: Api::B, dir, text, ds: None });
+            }
+            bidi_case(rng, &MODES_ALL, true)
+        }
         "C02" => {
             if n == 0 {
                 return ("empty".into(), Input::Bidi { enc: Enc::U8, api: Api::B, dir: Dir::Auto, text: vec![], ds: None });
@@ -662,8 +730,8 @@ pub fn gen_case(prop: &str, rng: &mut Rng, n: usize, thorough: bool) -> (String,
         "C05" => line_case(rng, &[("sep", 3), ("short", 3), ("words", 3), ("iso", 2), ("deep", 1), ("long", 2), ("max", 2)]),
         "C04" => ("levels".into(), Input::Rv { levels: gen_levels(rng) }),
         "C07" => match rng.below(10) {
-            0..=3 => bidi_case(rng, &[("deep", 3), ("brk", 3), ("sep", 2), ("iso", 2), ("para", 2), ("short", 2), ("empty", 1), ("max", 2)], true),
-            4..=8 => line_case(rng, &[("deep", 3), ("max", 4), ("brk", 2), ("sep", 3), ("iso", 2), ("para", 2), ("short", 2)]),
+            0..=3 => bidi_case(rng, &[("deep", 3), ("brk", 3), ("sep", 2), ("iso", 2), ("para", 2), ("short", 2), ("empty", 1), ("max", 2), ("removed", 2), ("siblings", 1)], true),
+            4..=8 => line_case(rng, &[("deep", 3), ("max", 4), ("brk", 2), ("sep", 3), ("iso", 2), ("para", 2), ("short", 2), ("removed", 2)]),
             _ => {
                 let m = pick_mode(rng, &[("iso", 2), ("para", 2), ("short", 1)]);
                 let t = gen_text(rng, m);
@@ -746,6 +814,36 @@ pub fn gen_case(prop: &str, rng: &mut Rng, n: usize, thorough: bool) -> (String,
                 let text = if enc == Enc::U16 { to_units(rng, &t, false) } else { t };
                 return ("ds-keys".into(), Input::Bidi { enc, api: Api::B, dir: pick_dir(rng), text, ds: Some(spec) });
             }
+            if rng.chance(1, 6) {
+                // brackets whose CLASS is not ON (a data source may say so): W1-W7 can resolve them to ON, after
+                // which they pair; retained BN units next to them are then rewritten by the weak stage, which the
+                // N0 sweeps over "NSM that follow a bracket" must still step over (finding D9)
+                let wk = [ES, CS, ET, NSM, ON, ON];
+                let (oc, cc) = (*rng.pick(&wk), *rng.pick(&wk));
+                let (o, c) = if rng.chance(1, 2) { (0x28u32, 0x3E8u32) } else { (0x3008, 0x1F600) };
+                let (sr, sl, bn, nsm, en, on, ws) = (0x5D0u32, 0x61u32, 0xADu32, 0x300u32, 0x31u32, 0x21u32, 0x20u32);
+                let spec = DsSpec { entries: vec![
+                    (o, oc, Some((o, true))), (c, cc, Some((o, false))),
+                    (sr, R, None), (sl, L, None), (bn, BN, None), (nsm, NSM, None), (en, EN, None), (on, ON, None), (ws, WS, None)], dflt: ON };
+                let strong = [sr, sl, en];
+                let filler = [sr, sl, en, on, ws, bn, nsm, LRE_C, PDF_C];
+                let gap = [bn, bn, LRE_C, RLE_C, PDF_C, nsm];
+                let mut t = vec![];
+                for _ in 0..rng.range(0, 3) { t.push(*rng.pick(&filler)); }
+                for _ in 0..rng.range(1, 3) {
+                    if rng.chance(1, 2) { t.push(*rng.pick(&strong)); }
+                    t.push(o);
+                    for _ in 0..rng.range(0, 2) { t.push(*rng.pick(&gap)); }
+                    for _ in 0..rng.range(0, 2) { t.push(*rng.pick(&filler)); }
+                    t.push(c);
+                    for _ in 0..rng.range(0, 3) { t.push(*rng.pick(&gap)); }
+                    if rng.chance(2, 3) { t.push(nsm); }
+                    for _ in 0..rng.range(0, 2) { t.push(*rng.pick(&filler)); }
+                }
+                let enc = if rng.chance(1, 2) { Enc::U8 } else { Enc::U16 };
+                let text = if enc == Enc::U16 { to_units(rng, &t, false) } else { t };
+                return ("ds-brkcls".into(), Input::Bidi { enc, api: Api::B, dir: pick_dir(rng), text, ds: Some(spec) });
+            }
             if rng.chance(1, 2) {
                 // abstract sequence instantiated through two alphabets
                 let nsym = rng.range(2, 10);
@@ -822,7 +920,7 @@ pub fn gen_case(prop: &str, rng: &mut Rng, n: usize, thorough: bool) -> (String,
                 0 | 1 => {
                     // the pair is wrapped by an outer bracket pair with no strong character of its own inside
                     tag = "iso-swap-brk";
-                    let k = rng.below(OPEN_BRACKETS.len());
+                    let k = pick_bracket(rng);
                     let mut pre: Vec<u32> = vec![];
                     for _ in 0..rng.range(0, 3) { let c = *rng.pick(&[L, R, AL, EN, WS]); pre.push(pick_char(rng, c)); }
                     pre.push(OPEN_BRACKETS[k]);
@@ -887,6 +985,28 @@ pub fn gen_case(prop: &str, rng: &mut Rng, n: usize, thorough: bool) -> (String,
                         prefix = (0..rng.range(0, 2)).map(|_| *rng.pick(&[0x20u32, 0x21, 0x31])).collect();
                     }
                 }
+                4 => {
+                    // one content starts with characters X9 removes, directly followed by a bracket pair that N0
+                    // resolves to a strong type; those removed characters are stored with the INITIATOR's level run,
+                    // so a step that walks text positions instead of the content's own sequence leaks out of the
+                    // isolate.  Outside: a strong/number context on both sides that is sensitive to what lies
+                    // between initiator and PDI.
+                    tag = "iso-swap-rm-brk";
+                    let k = pick_bracket(rng);
+                    let mut c = vec![];
+                    for _ in 0..rng.range(1, 3) { c.push(*rng.pick(&[0xADu32, 0x200B, 0x2060, LRE_C, RLE_C, PDF_C])); }
+                    c.push(OPEN_BRACKETS[k]);
+                    for _ in 0..rng.range(1, 3) { let cl = *rng.pick(&[L, R, AL, EN, AN]); c.push(pick_char(rng, cl)); }
+                    c.push(CLOSE_BRACKETS[k]);
+                    if rng.chance(1, 3) { let cl = *rng.pick(&[L, R, NSM]); c.push(pick_char(rng, cl)); }
+                    if rng.chance(1, 2) { c1 = c; c2.truncate(4); } else { c2 = c; c1.truncate(4); }
+                    let mut pre = vec![];
+                    for _ in 0..rng.range(1, 3) { let cl = *rng.pick(&[L, R, AL, EN, AN, WS]); pre.push(pick_char(rng, cl)); }
+                    prefix = pre;
+                    let mut suf = vec![];
+                    for _ in 0..rng.range(1, 3) { let cl = *rng.pick(&[EN, AN, ON, WS, L, R, ES, ET]); suf.push(pick_char(rng, cl)); }
+                    suffix = suf;
+                }
                 _ => {}
             }
             (tag.into(), Input::Meta13 { dir: pick_dir(rng), prefix, init, c1: balance(&c1), c2: balance(&c2), suffix })
@@ -943,6 +1063,14 @@ pub fn gen_case(prop: &str, rng: &mut Rng, n: usize, thorough: bool) -> (String,
             }
         }
         "C18" => {
+            if rng.chance(1, 5) {
+                // the UTF-8 side: characters of every encoded width
+                let n = rng.range(0, 9);
+                let text: Vec<u32> = (0..n)
+                    .map(|_| *rng.pick(&[0x41u32, 0x7F, 0x80, 0xE9, 0x5D0, 0x7FF, 0x800, 0x905, 0x2068, 0xFFFD, 0xFFFF, 0x10000, 0x1F600, 0xE0001, 0x10FFFF, 0x20, 0xA]))
+                    .collect();
+                return ("str".into(), Input::S8 { text });
+            }
             let n = rng.range(0, 12);
             let units: Vec<u32> = (0..n)
                 .map(|_| match rng.below(8) {
@@ -968,8 +1096,18 @@ pub fn gen_case(prop: &str, rng: &mut Rng, n: usize, thorough: bool) -> (String,
                 ("level".into(), Input::Lvl { l: n as u8 })
             } else if n <= 126 + 256 {
                 ("u8".into(), Input::U8 { n: (n - 127) as u8 })
+            } else if n <= 126 + 256 + 900 {
+                // one odd level at every position of slices of length 1..=40 (word-at-a-time scans, chunk
+                // boundaries), the rest even
+                let k = n - (126 + 256 + 1);
+                let mut len = 1; let mut pos = k;
+                while pos >= len { pos -= len; len += 1; }
+                let base = (rng.below(63) * 2) as u8;
+                let mut levels: Vec<u8> = (0..len).map(|_| if rng.chance(1, 2) { base } else { (rng.below(63) * 2) as u8 }).collect();
+                if len <= 40 { levels[pos] = (rng.below(63) * 2 + 1) as u8; }
+                ("slice-one-odd".into(), Input::HasRtl { levels })
             } else {
-                let len = rng.range(0, 12);
+                let len = if rng.chance(1, 4) { rng.range(12, 70) } else { rng.range(0, 12) };
                 let even = rng.chance(1, 2);
                 let levels: Vec<u8> = (0..len)
                     .map(|_| {
